@@ -151,9 +151,12 @@ func (e *Enc) invokeFacts(fr *Frame, c *ssa.Call, it types.Type, method, recv st
 
 func paramNames(f *ssa.Function, ct *Contract) []string {
 	var ns []string
+	// the header names the parameters by position; when the signature was edited (a parameter added or
+	// removed) the positions say nothing and the source names are used
+	useHeader := ct != nil && len(ct.Params) == len(f.Params)
 	for i, p := range f.Params {
 		n := p.Name()
-		if ct != nil && i < len(ct.Params) {
+		if useHeader {
 			n = ct.Params[i]
 		}
 		ns = append(ns, n)
@@ -311,7 +314,10 @@ func (e *Enc) bindErr(ct *Contract, c Clause, err error) {
 	e.bindErrs = append(e.bindErrs, fmt.Sprintf("%s (%s:%d): %v", ct.Key, shortPath(ct.File), c.Line, err))
 }
 
+var repoRoot = "/repo"
+
 func shortPath(p string) string {
+	p = strings.TrimPrefix(p, repoRoot+"/")
 	p = strings.TrimPrefix(p, "/repo/")
 	return p
 }
@@ -721,6 +727,42 @@ func (e *Enc) elementTemplates(fr *Frame, li *loopInfo) {
 			switch x := in.(type) {
 			case *ssa.Store:
 				ia, ok := x.Addr.(*ssa.IndexAddr)
+				if ok && !isStructPtr(x.Val.Type()) {
+					// dst[i] = src[i] (element-wise copy of values): everything below the index is equal
+					if ld, isLoad := x.Val.(*ssa.UnOp); isLoad && ld.Op.String() == "*" {
+						if sa, isIdx := ld.X.(*ssa.IndexAddr); isIdx && sa.Index == ia.Index {
+							dsl, ok1 := ia.X.Type().Underlying().(*types.Slice)
+							ssl, ok2 := sa.X.Type().Underlying().(*types.Slice)
+							var bound func(phiVal func(*ssa.Phi) string) string
+							if bo, ok := ia.Index.(*ssa.BinOp); ok && rangeIdx != nil && bo.X == ssa.Value(rangeIdx) && isConst(bo.Y) {
+								bound = func(pv func(*ssa.Phi) string) string { return "(+ " + pv(rangeIdx) + " 1)" }
+							} else if ph, ok := ia.Index.(*ssa.Phi); ok && ph.Block() == li.head {
+								bound = func(pv func(*ssa.Phi) string) string { return pv(ph) }
+							}
+							if ok1 && ok2 && bound != nil && types.Identical(dsl.Elem(), ssl.Elem()) {
+								n++
+								D, S := ia.X, sa.X
+								h := e.elemHeap(dsl.Elem())
+								e.n++
+								c := &invCand{id: e.n, auto: true, name: fmt.Sprintf("loop %d auto elems-equal(%s)", li.ord, e.exprText(x.Pos(), "assign", "index"))}
+								c.eval = func(st *State, pv func(*ssa.Phi) string) (string, error) {
+									ds, ok := e.headValue(fr, li, D, st)
+									ss, ok2 := e.headValue(fr, li, S, st)
+									if !ok || !ok2 {
+										return "", fmt.Errorf("no head value")
+									}
+									q := e.fresh("q_j")
+									e.quant++
+									del := e.sel(e.view(st, h), h, Loc{"(sarr " + ds + ")", "(+ (soff " + ds + ") " + q + ")"})
+									sel := e.sel(e.view(st, h), h, Loc{"(sarr " + ss + ")", "(+ (soff " + ss + ") " + q + ")"})
+									e.quant--
+									return fmt.Sprintf("(forall ((%s Int)) (=> (and (<= 0 %s) (< %s %s)) (= %s %s)))", q, q, q, bound(pv), del, sel), nil
+								}
+								li.cands = append(li.cands, c)
+							}
+						}
+					}
+				}
 				if !ok || !isStructPtr(x.Val.Type()) {
 					continue
 				}
@@ -904,9 +946,9 @@ func (e *Enc) loopBack(fr *Frame, li *loopInfo, from *ssa.BasicBlock, st *State)
 	pi := predIndex(li.head, from)
 	save := e.cur
 	e.cur = e.edgeCond(fr, from, li.head)
-	if !fr.inl && !li.vacDone {
+	if !fr.inl {
 		// vacuity canary: some back edge of every loop must be reachable under the assumed invariants
-		li.vacDone = true
+		// (one probe per back edge; the loop body is vacuous only if none is reachable)
 		e.addOb(fr, "VAC", "loopbody", loopPos(li.head), fmt.Sprintf("loop %d back edge", li.ord), "false", false)
 	}
 	for _, c := range e.loopCands(fr, li) {
@@ -1169,6 +1211,7 @@ func (e *Enc) verifyFunc() {
 		vars[n] = tval{t: fr.vals[f.Params[i]], typ: f.Params[i].Type()}
 	}
 	e.bindFreeVars(fr, st, vars)
+	e.structuralBindCheck(fr)
 	pre := &ExprEnv{e: e, fr: fr, vars: vars, st: st, old: st, a0: "A0", pkg: pkgOf(f)}
 	ct := fr.contract
 	if ct == nil {
@@ -1479,6 +1522,12 @@ func (e *Enc) siteGhosts(fr *Frame, b *ssa.BasicBlock, st *State) {
 				continue
 			}
 			env := e.siteEnv(fr, b, st)
+			// the value the call returned (single result) is visible as callresult
+			if t, ok := fr.vals[c]; ok && c.Type() != nil {
+				if _, isTuple := c.Type().(*types.Tuple); !isTuple {
+					env.vars["callresult"] = tval{t: t, typ: c.Type()}
+				}
+			}
 			v, err := env.term(sc.Clause.Text)
 			if err != nil {
 				e.bindErr(ct, sc.Clause, err)
@@ -1574,5 +1623,58 @@ func (e *Enc) comparatorIndexesSortedSlice(fr *Frame, st *State, c *ssa.Call, ca
 		cond := fmt.Sprintf("(and (= (sarr %s) (sarr %s)) (= (soff %s) (soff %s)))", b, x, b, x)
 		o := e.addOb(fr, "NONDET", "cmp-reads-sorted-slice", c.Pos(), e.exprText(c.Pos(), "call"), cond, b == x)
 		o.tags = e.spec.siteTags[shortName(e.top)]
+	}
+}
+
+
+// structuralBindCheck: clauses attached to loops or call sites that do not exist (any more) in the function.
+func (e *Enc) structuralBindCheck(fr *Frame) {
+	ct := fr.contract
+	if ct == nil || ct.IsIface {
+		return
+	}
+	nloops := len(fr.loops)
+	seen := map[int]bool{}
+	chk := func(n int, what string) {
+		if n > nloops && !seen[n] {
+			seen[n] = true
+			e.bindErrs = append(e.bindErrs, fmt.Sprintf("%s: %s of loop %d: unknown identifier (the function has %d loops)", ct.Key, what, n, nloops))
+		}
+	}
+	for n := range ct.LoopInv {
+		chk(n, "invariant")
+	}
+	for n := range ct.IterEns {
+		chk(n, "iter clause")
+	}
+	for n := range ct.LoopDec {
+		chk(n, "decreases")
+	}
+	// call sites
+	have := map[string]bool{}
+	for _, b := range fr.fn.Blocks {
+		for _, in := range b.Instrs {
+			if c, ok := in.(*ssa.Call); ok {
+				name, k := callOrdinal(fr.fn, c)
+				have[fmt.Sprintf("%s#%d", name, k)] = true
+			}
+		}
+	}
+	site := func(sc SiteClause, what string) {
+		for h := range have {
+			i := strings.LastIndex(h, "#")
+			var k int
+			fmt.Sscanf(h[i+1:], "%d", &k)
+			if siteMatches(sc, h[:i], k) {
+				return
+			}
+		}
+		e.bindErrs = append(e.bindErrs, fmt.Sprintf("%s: %s at %s#%d: unknown identifier (no such call site)", ct.Key, what, sc.Callee, sc.K))
+	}
+	for _, sc := range ct.Asserts {
+		site(sc, "assert")
+	}
+	for _, sc := range ct.Ghosts {
+		site(sc, "ghost")
 	}
 }
